@@ -345,6 +345,103 @@ def judge(case, log, tr, end):
     return ok(**info)
 
 
+# ------------------------------------------------------------------ document-root content flowing into responses
+
+
+@st.composite
+def static_case_st(draw):
+    from vlib import fsgen, pathspell
+
+    spec = draw(fsgen.tree_spec(max_nodes=8))
+    nodes = fsgen.SKELETON + spec["nodes"]
+    reqs = []
+    for _ in range(draw(st.integers(2, 8))):
+        node = draw(st.sampled_from(nodes))
+        parts = node["p"].split("/")
+        segs = parts[1:] if parts[0] == spec["root"] else [".."] + parts
+        sp = draw(pathspell.spelling(segs, spec["root"]))
+        reqs.append(sp["path"])
+    reqs.append("/")
+    return {"tree": spec, "listing": draw(st.booleans()), "reqs": reqs,
+            "assembly": draw(st.sampled_from(["handler", "start_server", "locations"])),
+            "cuts": draw(st.integers(0, 3))}
+
+
+def run_static(case: dict):
+    """Real StaticFileHandler (alone, through start_server's single-root assembly, or through locations without a
+    catch-all) over a generated tree with hostile names; every response must be one well-formed response + close."""
+    import asyncio
+    import os
+
+    from vlib import certs, fsgen, stacks
+
+    setup_logging()
+    from nauyaca.server.config import ServerConfig
+    from nauyaca.server.handler import StaticFileHandler
+    from nauyaca.server.location import HandlerType, LocationConfig
+    from nauyaca.server.protocol import GeminiServerProtocol
+
+    S = fsgen.build(case["tree"])
+    root = os.path.join(S, case["tree"]["root"])
+    c = certs.get("rsa-a")
+    try:
+        async def scenario(loop):
+            task = None
+            if case["assembly"] == "handler":
+                h = StaticFileHandler(root, enable_directory_listing=case["listing"])
+                factory = lambda: GeminiServerProtocol(h.handle, None)  # noqa: E731
+            else:
+                kw = dict(host="127.0.0.1", port=1965, document_root=root, certfile=c.cert_path, keyfile=c.key_path)
+                if case["assembly"] == "locations":
+                    sub = os.path.join(root, "sub")
+                    kw["locations"] = [LocationConfig(prefix="/sub/", handler_type=HandlerType.STATIC,
+                                                      document_root=sub if os.path.isdir(sub) else root,
+                                                      enable_directory_listing=case["listing"])]
+                cfg = ServerConfig(**kw)
+                factory, sslctx, task = await stacks.capture_start_server(loop, cfg, enable_directory_listing=case["listing"],
+                                                                          enable_rate_limiting=False)
+            out = []
+            for rq in case["reqs"]:
+                data = ("gemini://localhost" + rq).encode("utf-8", "surrogateescape") + b"\r\n"
+                tr = FakeTransport(loop)
+                tr.attach(factory())
+                k = case["cuts"]
+                if k and len(data) > 3:
+                    step = max(1, len(data) // (k + 1))
+                    for i in range(0, len(data), step):
+                        tr.feed(data[i:i + step])
+                        await vloop.settle(1)
+                else:
+                    tr.feed(data)
+                await vloop.settle(6)
+                await asyncio.sleep(40)
+                out.append((rq, tr))
+            if task:
+                task.cancel()
+            return out
+
+        results = vloop.run(scenario)
+    finally:
+        fsgen.destroy(S)
+    stats = {"n": len(results), "2x": 0, "listing": 0}
+    for rq, tr in results:
+        S_ = tr.written()
+        fatal = [e for e in tr.events if e[0] == "fatal"]
+        if not S_:
+            return viol("no-response" if not fatal else "exception-escaped-no-response",
+                        f"static request {rq!r}: {fatal[0][1] if fatal else 'nothing written'}", **stats)
+        wf = srvsim.parse_wf(S_)
+        if isinstance(wf, str):
+            return viol(wf, f"static request {rq!r} ({case['assembly']}, listing={case['listing']}): {S_[:120]!r}", **stats)
+        if not tr.closed_by_app():
+            return viol("not-closed", f"static request {rq!r}: {S_[:60]!r}", **stats)
+        if 20 <= wf[0] <= 29:
+            stats["2x"] += 1
+            if wf[2].startswith(b"# Index of"):
+                stats["listing"] += 1
+    return ok(**stats)
+
+
 class _TlsView:
     """Adapter so that judge() can read a ServerConn like a FakeTransport."""
 
@@ -481,6 +578,18 @@ def _labels_tls(case, v):
 
 
 LANES = [
+    Lane(
+        name="static",
+        run_case=run_static,
+        strategy=static_case_st,
+        budget={"quick": 800, "thorough": 15000},
+        shards={"quick": 16, "thorough": 32},
+        nontrivial=lambda c, v: True,
+        labels=lambda c, v: ["asm:" + c["assembly"], "listing" if c["listing"] else "nolisting"]
+        + (["had:listing"] if v.info.get("listing") else []) + (["had:2x"] if v.info.get("2x") else []),
+        rule="real StaticFileHandler over generated trees (undecodable / hostile names, links, listings) alone, through "
+             "start_server's single-root assembly and through locations without a catch-all (default 404)",
+    ),
     Lane(
         name="tls",
         run_case=run_tls,
